@@ -218,10 +218,11 @@ def sc_plain(cx, n, kx, mode):
     x = cx.real("x")
     _assume_decade(cx, x, kx)
     tag = "plain/%s/n%d/x1e%d" % (mode, n, kx)
-    if mode == "fixed":
+    if mode in ("fixed", "fixed-no-errors"):
         pf = ParameterFormatter("a", value=x, error=0.0)
         pf.fixed = True
-        text = pf.get_formatted(n_significant_digits=n, with_name=True)
+        # with_errors=False is what report() / plots pass while the uncertainties are not valid (before a fit)
+        text = pf.get_formatted(n_significant_digits=n, with_name=True, with_errors=(mode == "fixed"))
         cx.concrete(tag + ":marked-as-fixed", "(fixed)" in text, info=text)
     elif mode == "no-errors":
         s = cx.real("s")
@@ -541,7 +542,7 @@ def scenarios(tier, seed):
         for kd, ku in ((0, 0), (-1, 0)) if q else ((0, 0), (-1, 0), (0, -1), (-2, 0), (0, -2), (1, 1), (-3, -1)):
             for dx in (0, 2) if q else (-1, 0, 1, 2, 3):
                 S.append(Scenario("asym/n%d/dn1e%d/up1e%d/x+%d" % (n, kd, ku, dx), sc_asym, family="asym/n%d" % n, params=dict(n=n, kd=kd, ku=ku, dx=dx)))
-    for mode in ("fixed", "no-errors", "error-none", "error-zero"):
+    for mode in ("fixed", "fixed-no-errors", "no-errors", "error-none", "error-zero"):
         for n in (2,) if q else (1, 2, 3, 4):
             for kx in (-2, 3) if q else (-4, -2, 0, 1, 3, 5):
                 S.append(Scenario("plain/%s/n%d/x1e%d" % (mode, n, kx), sc_plain, family="plain/" + mode, params=dict(n=n, kx=kx, mode=mode)))
